@@ -60,7 +60,42 @@ def _c13_rule(op, args, impl):
         return False
 
 
+def _poly_pair_rule(op, args, impl):
+    # non-trivial: at least one polynomial argument of degree >= 2 and none of them zero
+    polys = [a for a in args if ("," in a) or a == "_"]
+    return any(a.count(",") >= 2 for a in args) and "_" not in args
+
+
+_RES_GEN = "all pairs of integer polynomials with <= 3 (thorough 4) coefficients in a small range; seeded random pairs of degree <= 12 with coefficients up to 2^64: common factors h*f1, h*g1 (deg h <= 6), f = g, f | g, degree gaps delta >= 2 in both orders, non-primitive and negative leading coefficients, sparse, constants, zero; un-normalised coefficient lists (outside the domain: oracle skips, model still mirrors). Non-trivial: some argument has degree >= 2 and none is zero; distinct = distinct (op,args)."
+
 INFO = {
+    "C04": {
+        "rule": _RES_GEN,
+        "rulefn": _poly_pair_rule,
+        "trusted": ["Mathlib Polynomial.resultant (determinant of the Sylvester matrix) as the specification"],
+        "gaps": ["integer routine resultant_smart (subresultant PRS): equality with the Sylvester determinant for non-constant inputs rests on the exactness of its divisions (fundamental theorem of subresultants), which is not proved; the model carries an exactness flag for every truncated division and the check fails if it is ever false; every implementation value is compared with an independent Bareiss determinant of the explicitly built Sylvester matrix and with resultant_rational (for which the theorem is full)"],
+        "assumptions": [],
+        "level_text": "Full theorem: the model of resultant_rational equals Mathlib's Sylvester-determinant resultant for all non-zero canonical rational polynomials; degenerate cases of the integer routine (zero, constants) proved; scaling law proved on the specification. The subresultant routine itself is tied to the code by differential testing with an exactness flag on every division and certified per explored case against an independent Sylvester determinant.",
+        "level_note": "Trusted: Lean kernel + 3 standard axioms; Mathlib resultant; correspondence coverage. Partial: resultant_smart on non-constant inputs is certified per explored case (exactness flag + Bareiss determinant), not proved.",
+    },
+    "C05": {
+        "rule": _RES_GEN + " For C05: f of degree >= 1, repeated factors, every residue of deg mod 4; metamorphic ops x->x+c, x->-x, disc(f g).",
+        "rulefn": _poly_pair_rule,
+        "trusted": ["Mathlib Polynomial.resultant as the specification of Res(f, f')"],
+        "gaps": ["discriminant value = (-1)^(n(n-1)/2) Res(f,f')/lc(f): inherits the subresultant gap of C04; certified per explored case against the Sylvester determinant of (f, f'), plus the three metamorphic laws and 'zero iff gcd(f,f') non-constant' evaluated on the implementation"],
+        "assumptions": ["deg f >= 1 (constants and zero are mirrored by the model and skipped by the oracle)"],
+        "level_text": "Theorems: the sign rule deg%4 in {2,3} <=> (-1)^(n(n-1)/2) = -1 for every n, the degree-1 case, refusal of the zero polynomial. The general value is certified per explored case (Sylvester determinant oracle, exactness flag) and by the metamorphic laws of the property.",
+        "level_note": "Trusted: Lean kernel + 3 standard axioms; correspondence coverage. Partial: as C04.",
+    },
+    "C10": {
+        "rule": _RES_GEN + " For C10: pairs h*f1, h*g1 with arbitrary contents and signs, coprime, nested, equal, constants, zero.",
+        "rulefn": _poly_pair_rule,
+        "trusted": [],
+        "gaps": ["d | f, d | g, coprime cofactors, content rule, positive leading coefficient, degree = deg f + deg g - rank(Sylvester): certified per explored case (exact division, independent Euclid over Q, rational-elimination rank); exactness of the PRS divisions as in C04"],
+        "assumptions": ["not both arguments zero"],
+        "level_text": "Theorems: gcd(0,g) = g; soundness of the certificate checked per case (a common divisor of f and g divides any integer combination c*d). The divisibility and maximality of the returned d are certified on every explored case by independent exact computations.",
+        "level_note": "Trusted: Lean kernel + 3 standard axioms; correspondence coverage. Partial: maximality/divisibility for all inputs is not proved (subresultant exactness).",
+    },
     "C13": {
         "rule": "every n in [-3, 2^13) (thorough 2^17); Carmichael numbers by Korselt search below 2*10^5 (thorough 5*10^6); published strong pseudoprimes psi_1..psi_8 and others, repeated; scripted all-liar histories (bases 1 and n-1) and liar histories broken by a witness in the last round for composites; scripted and seeded histories for primes up to 2^61-1; Mersenne primes up to 2^607-1, their products, random odd numbers and semiprimes up to 512 bits; the random history (raw RNG chunks) of every run is captured by the hook and replayed into the model. Exhaustive strong-liar counts for odd n below 2^10 (thorough 2^13) on the model. Non-trivial: |n| > 3; distinct = distinct (op,args incl. history).",
         "rulefn": _c13_rule,
